@@ -82,7 +82,7 @@ NoWal == [here |-> FALSE, n |-> 0, form |-> <<>>]
 InitState ==
     [bound |-> {},                          \* mnemonics some wallet has been made from
      ks    |-> [w \in Wal |-> {}],          \* exported keystores the user holds: issued count at export time
-     inst  |-> [i \in Inst |-> [pub |-> Pub0[i], wal |-> [w \in Wal |-> NoWal], unl |-> {}, mz |-> {}, sz |-> {}]]]
+     inst  |-> [i \in Inst |-> [pub |-> Pub0[i], wal |-> [w \in Wal |-> NoWal], unl |-> {}, mz |-> {}, sz |-> {}, held |-> {}]]]
 
 Here(S, i, w) == S.inst[i].wal[w].here
 N(S, i, w)    == S.inst[i].wal[w].n
@@ -93,6 +93,12 @@ Dup(S, op)    == op.a \in {"impks", "impmn"} /\ Here(S, op.i, op.w)
 (*   impks   i w cand n         impmn   i w -    hint   restart i - -    - *)
 (*   chpub   i - tok  -         sign    i w cand index  getmn   i w cand - *)
 (*   remove  i w cand -                                                    *)
+(*   hold    i w right index  : the wallet signs and STAYS unlocked, as it *)
+(*                              is between two inputs of one SignRawTx     *)
+(*   lock    i - -    -       : the end of that window (ClearPrivKey)      *)
+(* The property demands the same answers of an unlocked wallet as of a     *)
+(* locked one: the right passphrase works, every other one is refused, a   *)
+(* refused attempt alters nothing.                                         *)
 Usable(S, op) ==
     /\ op.i \in Inst
     /\ CASE op.a = "create"  -> op.w \in Wal /\ ~Here(S, op.i, op.w) /\ MnOf(op.w) \notin S.bound /\ op.k \in BitSizes
@@ -102,11 +108,13 @@ Usable(S, op) ==
          [] op.a = "impks"   -> op.w \in Wal /\ op.k \in S.ks[op.w] /\ op.c \in CandClasses
          [] op.a = "impmn"   -> op.w \in Wal /\ op.k \in Nat
          [] op.a = "restart" -> TRUE
+         [] op.a = "hold"    -> op.w \in Wal /\ Here(S, op.i, op.w) /\ op.c = "right" /\ op.k \in 0..(N(S, op.i, op.w) - 1)
+         [] op.a = "lock"    -> TRUE
          [] op.a = "chpub"   -> op.c \in PubToks \ {S.inst[op.i].pub}
          [] OTHER -> FALSE
 
 Want(S, op) ==
-    CASE op.a \in {"create", "newaddr", "restart", "chpub"} -> "ok"
+    CASE op.a \in {"create", "newaddr", "restart", "chpub", "hold", "lock"} -> "ok"
       [] op.a \in GatedOps -> IF op.c = "right" THEN "ok" ELSE "pass"
       [] op.a = "impks" -> IF op.c # "right" THEN "pass" ELSE IF Dup(S, op) THEN "dup" ELSE "ok"
       [] op.a = "impmn" -> IF Dup(S, op) THEN "dup" ELSE "ok"
@@ -148,13 +156,20 @@ Eff(S, op, cnt) ==
                        !.inst[i].mz = IF AsFound /\ w \in S.inst[i].unl THEN @ \cup {w} ELSE @]
       [] op.a \in {"impks", "impmn"} /\ Want(S, op) = "ok" ->
              [SetWal(S, i, w, [here |-> TRUE, n |-> cnt, form |-> [x \in 1..cnt |-> "any"]])
-                 EXCEPT !.bound = @ \cup {MnOf(w)}]
-      [] op.a = "restart" -> [S EXCEPT !.inst[i].unl = {}, !.inst[i].mz = {}, !.inst[i].sz = {}]
+                 EXCEPT !.bound = @ \cup {MnOf(w)},
+                        \* (the conformance side signs for the change addresses a mnemonic import restores)
+                        !.inst[i].held = IF op.a = "impmn" THEN {} ELSE @]
+      [] op.a = "restart" -> [S EXCEPT !.inst[i].unl = {}, !.inst[i].mz = {}, !.inst[i].sz = {}, !.inst[i].held = {}]
       [] op.a = "chpub" -> [S EXCEPT !.inst[i].pub = op.c]
+      \* held: wallets inside a signing window (unlocked on purpose); WalletManager.SignHash locks every wallet
+      \* of the instance again when it returns, granted or refused
+      [] op.a = "hold" -> [S EXCEPT !.inst[i].held = @ \cup {w}]
+      [] op.a = "lock" -> [S EXCEPT !.inst[i].held = {}]
       [] op.a = "sign" /\ op.c = "right" ->
-             [S EXCEPT !.inst[i].unl = IF AsFound THEN @ \cup {w} ELSE @]
+             [S EXCEPT !.inst[i].unl = IF AsFound THEN @ \cup {w} ELSE @, !.inst[i].held = {}]
+      [] op.a = "sign" -> [S EXCEPT !.inst[i].held = {}]
       [] op.a = "remove" /\ op.c = "right" ->
-             [SetWal(S, i, w, NoWal) EXCEPT !.inst[i].unl = @ \ {w}, !.inst[i].mz = @ \ {w}, !.inst[i].sz = @ \ {w}]
+             [SetWal(S, i, w, NoWal) EXCEPT !.inst[i].unl = @ \ {w}, !.inst[i].mz = @ \ {w}, !.inst[i].sz = @ \ {w}, !.inst[i].held = @ \ {w}]
       [] AsFound /\ op.a \in GatedOps /\ op.c # "right" /\ CandClass(op) = "empty" /\ w \in S.inst[i].unl ->
              [S EXCEPT !.inst[i].sz = @ \cup {w}]       \* (as found only; the property says: nothing changes)
       [] OTHER -> S      \* reveal mnemonic; every refused attempt; import of a wallet already held
